@@ -32,6 +32,9 @@ CHECKS = {
  "C10": dict(cat="model_checking", design="DESIGN.md section 5 C10",
    technique="TLA+ spec Pipeline.tla (one action per pipeline step; invariants NoSilentLoss, WarningLocal, EnvMatchesHeader; termination) model-checked with TLC, deviation models refuted; executions of the real compiler recorded through cfg(rasn_verif) hooks and validated event by event against the spec (Trace_Pipeline.tla)",
    text="TLC model-checks the pipeline design exhaustively for 2 modules x 2 names x <=2 definitions x kinds x faults (about 82 000 states, liveness included) and refutes the bare-name-map and env-leak deviation models. Every input of that bounded model is made concrete and compiled (6 204 inputs), and Notation module sets with 1..3 injected unsupported definitions are compiled with and without the faults; each compilation's hook events (lexed, insert, validate, group, enter_module, gen) plus its result are validated as a behaviour of Pipeline.tla, NoSilentLoss is evaluated on the replayed state, and bindings of definitions that do not depend on a faulted one are compared with the fault-free run."),
+ "C12": dict(cat="model_checking", design="DESIGN.md section 5 C12",
+   technique="TLA+ spec Pipeline.tla (EnvMatchesHeader, OutIsFunctionOfInput model-checked, env-leak deviation model refuted); multi-module executions of the real compiler recorded through cfg(rasn_verif) hooks and validated against the spec; per-module / per-definition comparison events judged by the same trace specification",
+   text="At design level TLC checks over all orders of module entry that every definition is generated under its own module's environment. For the code, Notation module sets of 2..3 modules with differing defaults, imports and qualified references are compiled as a whole, in reverse order, and module by module with only the import closure; the hook trace of the whole compilation must be a behaviour of Pipeline.tla (each enter_module event must carry the module's own header environment), per-definition bindings must be equal across the compilations, use declarations must be exactly the imported symbols, and qualified references must resolve to super::<module>::<Type>."),
 }
 
 NOT_BUILT = "check not built yet (DESIGN.md section 13 build order)"
